@@ -8,6 +8,7 @@ import (
 	"encoding/base64"
 	"encoding/json"
 	"fmt"
+	"strings"
 	"time"
 
 	jose "github.com/go-jose/go-jose/v4"
@@ -88,10 +89,24 @@ func roleKey(alg, role string) *fx {
 	return key(m[role])
 }
 
+// claimedAlg: the algorithm name the header of an alg-hdr-* mutation carries instead of alg.
+func claimedAlg(mut, alg string) string {
+	switch mut {
+	case "alg-hdr-sibling": // the nearest other member of the enum: other padding, other hash/curve, other family
+		return map[string]string{"RS256": "PS256", "RS384": "RS256", "PS256": "RS256", "ES256": "ES384", "ES384": "ES256", "EdDSA": "ES256"}[alg]
+	case "alg-hdr-lower":
+		return strings.ToLower(alg)
+	case "alg-hdr-unknown": // a registered JOSE name no verifier of the library supports
+		return "ES256K"
+	}
+	panic(mut)
+}
+
 var mutations = []string{
 	"asis",
 	"alg-none", "unsigned-2parts", "sig-empty",
 	"hs256-pem", "hs256-der", "hs256-raw",
+	"alg-hdr-sibling", "alg-hdr-lower", "alg-hdr-unknown",
 	"attacker-key", "attacker-jwk-header",
 	"sig-trunc", "sig-bitflip",
 	"payload-swap", "payload-reencoded", "header-reencoded",
@@ -140,6 +155,10 @@ func buildToken(kind, alg, tkid, mut string) string {
 		kb := map[string][]byte{"hs256-pem": pemB, "hs256-der": der, "hs256-raw": raw}[mut]
 		h := b64.EncodeToString(header("HS256", tkid, ""))
 		return h + "." + PA + "." + b64.EncodeToString(hmacSHA256(kb, []byte(h+"."+PA)))
+	case "alg-hdr-sibling", "alg-hdr-lower", "alg-hdr-unknown":
+		// genuinely signed by the trusted key with alg, over a header that names another algorithm
+		h := b64.EncodeToString(header(claimedAlg(mut, alg), tkid, ""))
+		return h + "." + P + "." + b64.EncodeToString(memoSign(S, alg, h+"."+P))
 	case "attacker-key":
 		return H + "." + PA + "." + attSig(H, PA)
 	case "attacker-jwk-header":
